@@ -13,10 +13,13 @@
   Ties to the code: `Gen.storageFns`, `Gen.watchQ` (regenerated on every run; table theorems below) and the
   TCP matrix of lib/c08.py, which mirrors every client command into `drv_watch` and compares every EXEC.
 
-  What fails on the current tree (witness lemmas below, all replayed over TCP): EXPIRE/PEXPIRE, PERSIST,
-  RENAME/RENAMENX (source key), FLUSHDB/FLUSHALL do not mark; a second WATCH replaces the baseline; watch
-  entries forget their database (EXEC / UNWATCH after SELECT); WATCH of an already expired, not yet removed
-  key aborts although nothing changed.
+  Fixed in /repo since the check exists (the witness lemmas below are kept as statements about the old table
+  rows / old switch values): EXPIRE/PEXPIRE (9b86ca2), PERSIST (96ab82d), RENAME/RENAMENX source key (414e6c4),
+  FLUSHDB/FLUSHALL (2a25c7e) did not mark; a second WATCH replaced the baseline (180a098); watch entries forgot
+  their database (3ed7039).  On the current tree every mutating storage function marks (`all_writes_mark`, no
+  exception) and the watch list is the prescribed one, so `watch_sound` holds for the tree at full strength
+  (`watch_sound_tree`).  Still open: WATCH of an already expired, not yet removed key aborts although nothing
+  changed (`no_false_abort_fails_expired_at_watch`; switch `watchPurges`, fix proposed as C08_7).
 -/
 import FerrousSpec.Proofs.WatchWitness
 namespace Ferrous.C08
@@ -24,10 +27,10 @@ open Ferrous Ferrous.Watch
 
 /-! ## The regenerated table -/
 
-/-- (storage function, key parameter) pairs that mutate stored data without reaching `mark_modified` on the
-    current tree; `"*"` stands for "the keys removed by a function without key parameter" (flush_db). -/
-def exceptions : List (String × String) :=
-  [("expire", "key"), ("pexpire", "key"), ("persist", "key"), ("rename", "old_key"), ("flush_db", "*")]
+/-- (storage function, key parameter) pairs that mutate stored data without reaching `mark_modified`; `"*"`
+    stands for "the keys removed by a function without key parameter" (flush_db).  Empty since commits
+    9b86ca2, 96ab82d, 414e6c4, 2a25c7e (before: expire/key, pexpire/key, persist/key, rename/old_key, flush_db/*). -/
+def exceptions : List (String × String) := []
 
 /-- the (function, parameter) pairs of a table that mutate and do not mark -/
 def nonMarking (fns : List StorageFn) : List (String × String) :=
@@ -38,25 +41,53 @@ def nonMarking (fns : List StorageFn) : List (String × String) :=
     else []
 
 /-- Every `pub fn` of `impl StorageEngine` (and the sweeper loop) that mutates stored data passes each of
-    its key parameters to `mark_modified` — except the listed pairs.  A NEW write that does not mark breaks
-    this theorem (the dynamic matrix checks that "calls mark_modified" means "on every mutating path"). -/
+    its key parameters to `mark_modified` — except the listed pairs (none).  A NEW write that does not mark
+    breaks this theorem (the dynamic matrix checks that "calls mark_modified" means "on every mutating path"). -/
 theorem all_writes_mark : ∀ x ∈ nonMarking Gen.storageFns, x ∈ exceptions := by decide
 
-/-- The exception list is exact on the current tree: each listed pair really is a mutating function that
-    does not mark (confirmed over TCP as known findings).  Applying a `fix:` that adds the missing
-    `mark_modified` call makes this theorem fail: remove the pair from `exceptions` then. -/
-theorem tree_nonmarking_writes : ∀ x ∈ exceptions, x ∈ nonMarking Gen.storageFns := by decide
+/-- The exception list is exact (both are empty on the current tree). -/
+theorem tree_nonmarking_writes : nonMarking Gen.storageFns = exceptions := by decide
 
-/-- The watch list of the current tree is keyed by key only and a second WATCH replaces the baseline. -/
-theorem tree_watch_list_is_code : Gen.watchQ = Q.code := by decide
+set_option maxRecDepth 20000 in
+/-- The same, row by row: a mutating row marks every key parameter it has, and a mutating row without key
+    parameter (flush_db) marks everything it removes. -/
+theorem tree_every_mutator_marks :
+    ∀ f ∈ Gen.storageFns, f.mutates = true →
+      (∀ p ∈ f.keyParams, marksOf f.name p = true) ∧ (f.keyParams = [] → f.marksAll = true) := by decide
+
+/-- flush_db and the sweeper mark what they remove. -/
+theorem tree_flush_and_sweeper_mark : flushMarks = true ∧ marksOf "expiration_cleanup_loop" "key" = true := by decide
+
+/-- The watch list of the current tree: entries are keyed by (database, key) and checked / unregistered there, a
+    second WATCH keeps the first baseline (commits 3ed7039, 180a098).  WATCH does not yet purge an expired stored
+    value (`Q.noPurge`; the open finding); with C08_7 applied the tree is `Q.fixed`.  Both are accepted, so that
+    applying that fix needs no edit here; a regression of the other two switches breaks this theorem. -/
+theorem tree_watch_list : Gen.watchQ = Q.noPurge ∨ Gen.watchQ = Q.fixed := by decide
 
 /-- The write paths used by the commands are in the table and mark their key. -/
 theorem tree_marking_functions :
     (["set_value", "set_string", "set_string_ex", "set_string_nx", "set_string_nx_ex", "delete", "incr", "incr_by",
       "append", "setrange", "lpush", "rpush", "lpop", "rpop", "lset", "ltrim", "lrem", "sadd", "srem", "spop",
       "hset", "hdel", "hincrby", "zadd", "zrem", "zincrby", "xadd", "xadd_with_id", "xdel", "xtrim", "get",
-      "expiration_cleanup_loop"].all (fun fn => marksOf fn "key")) = true ∧ marksOf "rename" "new_key" = true := by
+      "expire", "pexpire", "persist", "expiration_cleanup_loop"].all (fun fn => marksOf fn "key")) = true ∧
+    marksOf "rename" "new_key" = true ∧ marksOf "rename" "old_key" = true := by
   decide
+
+/-- An operation built from the table of the current tree marks what it changes. -/
+theorem table_op_marks (o : Op) (h : isTableOp o = true) : opMarksOk o = true := by
+  cases o with
+  | key ko =>
+    simp only [isTableOp, Bool.or_eq_true, Bool.not_eq_true', List.any_eq_true, Bool.and_eq_true, beq_iff_eq] at h
+    simp only [opMarksOk, Bool.or_eq_true, Bool.not_eq_true']
+    rcases h with h | ⟨f, hf, ⟨hm, _⟩, p, hp, hmk⟩
+    · exact Or.inl h
+    · right
+      rw [← hmk]
+      exact (tree_every_mutator_marks f hf hm).1 p hp
+  | flush all m =>
+    simp only [isTableOp, beq_iff_eq] at h
+    simp only [opMarksOk]
+    rw [h]; exact tree_flush_and_sweeper_mark.1
 
 /-! ## The invariant is reachable -/
 
@@ -68,9 +99,11 @@ theorem reachable_inv (q : Q) (evs : List (Nat × Watch.Ev)) (h : Safe q State.i
     Inv q (run q State.init evs) :=
   inv_run q State.init evs (inv_init q) h
 
-/-- In the prescribed variant SELECT is always safe: only the (unreachable) usize wrap remains excluded. -/
-theorem fixed_select_is_safe (s : Watch.State) (c d : Nat) : stepSafe Q.fixed s (.select c d) = true := by
-  simp [stepSafe, Q.fixed]
+/-- When watch entries remember their database (the current tree, `Q.fixed`) SELECT is always safe: only the
+    (unreachable) wrap of a usize watcher count remains excluded by `Safe`. -/
+theorem fixed_select_is_safe (q : Q) (hq : q.perDb = true) (s : Watch.State) (now c d : Nat) :
+    stepSafe q s now (.select c d) = true := by
+  simp [stepSafe, hq]
 
 /-! ## No false abort -/
 
@@ -93,26 +126,38 @@ theorem no_false_abort (q : Q) (s : Watch.State) (evs : List (Nat × Watch.Ev)) 
   rw [this] at h
   exact absurd h.2 (by simp)
 
-/-- WATCH records the key's current counter: right after `WATCH k` on a connection that watched nothing,
-    the hypothesis `counter ≤ baseline` of `no_false_abort` holds (with equality). -/
+/-- WATCH records the key's current counter: right after `WATCH k` on a connection that watched nothing (k
+    carrying no deadline, so that the `watchPurges` variant has nothing to drop), the hypothesis
+    `counter ≤ baseline` of `no_false_abort` holds (with equality). -/
 theorem watch_takes_baseline (q : Q) (s : Watch.State) (now c : Nat) (k : Key)
-    (hin : (s.conn c).inTx = false) (hw : (s.conn c).watched = []) :
+    (hin : (s.conn c).inTx = false) (hw : (s.conn c).watched = [])
+    (hdl : ∀ e, s.entry (s.conn c).db k = some e → e.deadline = none) :
     ((step q s now (.watch c [k])).1.conn c).watched = [⟨k, s.counter (s.conn c).db k, (s.conn c).db⟩] ∧
     (step q s now (.watch c [k])).1.counter (s.conn c).db k = s.counter (s.conn c).db k ∧
     (step q s now (.watch c [k])).1.entry (s.conn c).db k = s.entry (s.conn c).db k ∧
     ((step q s now (.watch c [k])).1.conn c).db = (s.conn c).db := by
+  have hx : expiredNow s (s.conn c).db k now = false := by
+    unfold expiredNow
+    cases h : s.entry (s.conn c).db k with
+    | none => rfl
+    | some e => simp [Entry.expired, hdl e h]
+  have hp : purgeAtWatch q s (s.conn c).db k now = s := by
+    unfold purgeAtWatch
+    split
+    · exact sweepKey_not_expired s _ k true now hx
+    · rfl
   rw [step_watch]
   simp only [List.isEmpty_cons, hin, Bool.or_self, Bool.false_eq_true, if_false]
-  have hs := watchAll_same q c s [k] (s.conn c).db k
+  have hs := watchAll_same q c now s [k] (s.conn c).db k (by simp [watchTouches, hx])
   refine ⟨?_, hs.1, hs.2, ?_⟩
   · simp only [watchAll, List.foldl_cons, List.foldl_nil]
     unfold watchKey
-    simp only [hw, List.any_nil, Bool.and_false, Bool.false_eq_true, if_false, List.filter_nil]
+    simp only [hw, List.any_nil, Bool.and_false, Bool.false_eq_true, if_false, List.filter_nil, hp]
     rw [conn_setConn]
     simp only [if_true]
     rfl
   · simp only [watchAll, List.foldl_cons, List.foldl_nil]
-    exact db_watchKey q c s k c
+    exact db_watchKey q c now s k c
 
 /-- WATCH k, then any history that does not address k (no deadline on k), then EXEC: never nil. -/
 theorem no_false_abort_after_watch (q : Q) (s : Watch.State) (t : Nat) (evs : List (Nat × Watch.Ev)) (c now : Nat)
@@ -122,7 +167,7 @@ theorem no_false_abort_after_watch (q : Q) (s : Watch.State) (t : Nat) (evs : Li
     (hquiet : ∀ e ∈ evs, quiet q c e.2 = true)
     (hunt : untouched q (s.conn c).db k (step q s t (.watch c [k])).1 evs = true) :
     (step q (run q s ((t, .watch c [k]) :: evs)) now (.exec c ops)).2 ≠ .nil := by
-  obtain ⟨h1, h2, h3, h4⟩ := watch_takes_baseline q s t c k hin hw
+  obtain ⟨h1, h2, h3, h4⟩ := watch_takes_baseline q s t c k hin hw hdl
   simp only [run]
   apply no_false_abort q _ evs c now ops hquiet
   intro w hwm
@@ -144,23 +189,61 @@ theorem no_false_abort_after_watch (q : Q) (s : Watch.State) (t : Nat) (evs : Li
 /-- WATCH SOUND, full statement, for every variant `q` and every `Safe` history from a state satisfying the
     invariant (in particular: every reachable state, `reachable_inv`).  Connection `c` holds a watch entry `w`.
     Some later step changes the stored entry of the watched (database, key) — by a command of any connection
-    (the watcher included), inside an EXEC, inside a script, by a flush, or by the sweeper removing it — and the
-    table condition holds for that step: every operation it executes marks what it changes (`evMarksOk`; on
-    the fixed tree this is `all_writes_mark` with an empty exception list).  `c` stays quiet (MULTI, data
-    commands; with `q.perDb` also SELECT) and is inside MULTI at the end.  Then its EXEC returns nil.
-    For `q = Q.fixed`, `Safe` only excludes the wrap of a usize counter (`fixed_select_is_safe`). -/
+    (the watcher included), inside an EXEC, inside a script, by a flush, by the sweeper removing it, or by
+    another client's WATCH dropping it when expired — and the table condition holds for that step: every
+    operation it executes marks what it changes (`evMarksOk`).  `c` stays quiet (MULTI, data commands; with
+    `q.perDb` also SELECT) and is inside MULTI at the end.  Then its EXEC returns nil.
+    When `q.perDb`, `Safe` only excludes the wrap of a usize counter (`fixed_select_is_safe`). -/
 theorem watch_sound (q : Q) (s : Watch.State) (pre post : List (Nat × Watch.Ev)) (now : Nat) (ev : Watch.Ev)
     (c : Nat) (w : W) (nowE : Nat) (ops : List Op)
-    (hi : Inv q s) (hsafe : Safe q s pre = true)
+    (hi : Inv q s) (hsafe : Safe q s (pre ++ [(now, ev)]) = true)
     (hquiet : ∀ e ∈ pre ++ (now, ev) :: post, quiet q c e.2 = true)
     (hw : w ∈ (s.conn c).watched)
     (htable : evMarksOk q (run q s pre) now ev = true)
     (hchanged : (step q (run q s pre) now ev).1.entry w.regDb w.key ≠ (run q s pre).entry w.regDb w.key)
     (hin : ((run q s (pre ++ (now, ev) :: post)).conn c).inTx = true) :
-    (step q (run q s (pre ++ (now, ev) :: post)) nowE (.exec c ops)).2 = .nil :=
-  sound_of_change q s pre post now ev c w nowE ops hi hsafe hquiet hw htable hchanged hin
+    (step q (run q s (pre ++ (now, ev) :: post)) nowE (.exec c ops)).2 = .nil := by
+  have hs := safe_append q s pre [(now, ev)] hsafe
+  have hev : stepSafe q (run q s pre) now ev = true := by
+    have := hs.2
+    simp only [Safe, Bool.and_true] at this
+    exact this
+  exact sound_of_change q s pre post now ev c w nowE ops hi hs.1 hev hquiet hw htable hchanged hin
 
-/-- WATCH SOUND for the code as it is (`_partial`): the same conclusion when the operation that runs on the
+/-- WATCH SOUND FOR THE CURRENT TREE, at full strength: with the watch list as the source has it (`Gen.watchQ`)
+    and operations whose marking is what the regenerated table says (`evFromTable`: what `drv_watch` builds
+    from the rows for any command), ANY change of a watched key's stored entry between WATCH and EXEC — by any
+    client, directly, inside EXEC, inside a script, by EXPIRE/PERSIST/RENAME/FLUSH, by the sweeper — makes the
+    watcher's EXEC return nil.  No exclusion remains but the usize bound inside `Safe` and the watcher's own
+    quietness (no UNWATCH/EXEC/DISCARD and no second WATCH command in the window; SELECT is allowed). -/
+theorem watch_sound_tree (s : Watch.State) (pre post : List (Nat × Watch.Ev)) (now : Nat) (ev : Watch.Ev)
+    (c : Nat) (w : W) (nowE : Nat) (ops : List Op)
+    (hi : Inv Gen.watchQ s) (hsafe : Safe Gen.watchQ s (pre ++ [(now, ev)]) = true)
+    (hquiet : ∀ e ∈ pre ++ (now, ev) :: post, quiet Gen.watchQ c e.2 = true)
+    (hw : w ∈ (s.conn c).watched)
+    (htable : evFromTable Gen.watchQ (run Gen.watchQ s pre) now ev = true)
+    (hchanged : (step Gen.watchQ (run Gen.watchQ s pre) now ev).1.entry w.regDb w.key ≠
+      (run Gen.watchQ s pre).entry w.regDb w.key)
+    (hin : ((run Gen.watchQ s (pre ++ (now, ev) :: post)).conn c).inTx = true) :
+    (step Gen.watchQ (run Gen.watchQ s (pre ++ (now, ev) :: post)) nowE (.exec c ops)).2 = .nil := by
+  apply watch_sound Gen.watchQ s pre post now ev c w nowE ops hi hsafe hquiet hw ?_ hchanged hin
+  simp only [evFromTable, Bool.and_eq_true, List.all_eq_true] at htable
+  simp only [evMarksOk, Bool.and_eq_true, List.all_eq_true]
+  refine ⟨fun p hp => table_op_marks p.2 (htable.1 p hp), ?_⟩
+  cases ev with
+  | sweep d k m =>
+    have := htable.2
+    simp only [beq_iff_eq] at this
+    simp only [this]
+    exact tree_flush_and_sweeper_mark.2
+  | _ => rfl
+
+/-- On the current tree SELECT never makes a history unsafe. -/
+theorem tree_select_is_safe (s : Watch.State) (now c d : Nat) : stepSafe Gen.watchQ s now (.select c d) = true :=
+  fixed_select_is_safe Gen.watchQ (by decide) s now c d
+
+/-- WATCH SOUND for the code as it was before the fixes (`_partial`, kept: it is what held then and still holds
+    for any tree whose table has exceptions): the same conclusion when the operation that runs on the
     watched key — reaching a mutating path: a real change or a touch — is one the table lists as marking
     (`ko.marks`, i.e. any write except those of `exceptions`), under the decidable exclusions packed in
     `Safe Q.code` / `quiet Q.code`: no connection SELECTs another database while it holds watch entries (so
@@ -247,106 +330,126 @@ theorem watch_is_per_connection (q : Q) (s : Watch.State) (now : Nat) (ev : Watc
 
 /-- In the prescribed variant a WATCH of a key that is already watched (same database) changes nothing: the
     first baseline stays. -/
-theorem fixed_rewatch_is_noop (s : Watch.State) (c : Nat) (k : Key) (w : W)
+theorem fixed_rewatch_is_noop (q : Q) (hq : q.rewatchKeeps = true) (s : Watch.State) (c now : Nat) (k : Key) (w : W)
     (hw : w ∈ (s.conn c).watched) (hk : w.key = k) (hd : w.regDb = (s.conn c).db) :
-    watchKey Q.fixed c s k = s := by
+    watchKey q c now s k = s := by
   unfold watchKey
   have : (s.conn c).watched.any (fun w => decide (w.key = k) && decide (w.regDb = (s.conn c).db)) = true := by
     rw [List.any_eq_true]; exact ⟨w, hw, by simp [hk, hd]⟩
-  simp [Q.fixed, this]
+  simp [hq, this]
 
-/-! ## Witnesses: where the code as it is violates the full statement (each replayed over TCP by lib/c08.py)
+/-! ## Witnesses (each was replayed over TCP by lib/c08.py while the defect existed)
 
-  Every history below is `Safe`, the watcher stays quiet, the stored entry of the watched key changes in the
-  third step — all hypotheses of `watch_sound` except the table condition — and EXEC executes.
-  The four table witnesses are stated under "the table says the function does not mark this key" (true on the
-  current tree: `tree_nonmarking_writes`), so that applying a fix only requires shortening `exceptions`. -/
+  The first group speaks about the OLD table rows (a storage function that changes the watched key without
+  marking) and the OLD switch values `Q.code`: every history is `Safe`, the watcher stays quiet, the stored
+  entry of the watched key changes in the third step — all hypotheses of `watch_sound` except the table
+  condition / the prescribed watch list — and EXEC executes.  Next to each: the current tree aborts. -/
 
 /-- a marking write (SET by another client) aborts: the positive control -/
-theorem set_aborts : execAfter Q.code hSet 1010 = .nil ∧ judged Q.code hSet 1010 = [(.nil, .mustNil)] := by decide
+theorem set_aborts : execAfter Gen.watchQ hSet 1010 = .nil ∧ judged Gen.watchQ hSet 1010 = [(.nil, .mustNil)] := by decide
 
 /-- a write to another key does not: the negative control -/
-theorem other_key_runs : execAfter Q.code hOtherKey 1010 = .array 0 ∧ judged Q.code hOtherKey 1010 = [(.array 0, .mustRun)] := by
-  decide
+theorem other_key_runs :
+    execAfter Gen.watchQ hOtherKey 1010 = .array 0 ∧ judged Gen.watchQ hOtherKey 1010 = [(.array 0, .mustRun)] := by decide
 
-/-- EXPIRE / PEXPIRE on the watched key: EXEC executes, the Spec demands nil. -/
+/-- On the current tree (table rows and watch list as regenerated) every one of the formerly failing
+    histories aborts: EXPIRE, PEXPIRE, PERSIST, RENAME from/to, FLUSHDB, FLUSHALL, re-WATCH after a change,
+    SELECT between WATCH and EXEC, UNWATCH after SELECT by another client (both shapes) — and the SELECT history
+    that used to abort falsely executes. -/
+theorem tree_former_witnesses_abort :
+    execAfter Gen.watchQ hExpire 1010 = .nil ∧ execAfter Gen.watchQ hPexpire 1010 = .nil ∧
+    execAfter Gen.watchQ hPersist 1010 = .nil ∧ execAfter Gen.watchQ hRenameSrc 1010 = .nil ∧
+    execAfter Gen.watchQ hRenameDst 1010 = .nil ∧ execAfter Gen.watchQ hFlush 1010 = .nil ∧
+    execAfter Gen.watchQ hFlushAll 1010 = .nil ∧ execAfter Gen.watchQ hRewatch 1010 = .nil ∧
+    execAfter Gen.watchQ hSelectExec 1010 = .nil ∧ execAfter Gen.watchQ hUnwatchSteals 1010 = .nil ∧
+    execAfter Gen.watchQ hUnwatchWraps 1010 = .nil ∧ execAfter Gen.watchQ hSelectFalseAbort 1010 = .array 0 ∧
+    judged Gen.watchQ hExpire 1010 = [(.nil, .mustNil)] ∧ judged Gen.watchQ hFlush 1010 = [(.nil, .mustNil)] ∧
+    judged Gen.watchQ hSelectFalseAbort 1010 = [(.array 0, .mustRun)] := by decide
+
+/-- old row of `expire` (before 9b86ca2: mutates, does not mark): EXPIRE / PEXPIRE on the watched key — EXEC
+    executes in every variant of the watch list, the Spec demands nil -/
 theorem watch_sound_fails_expire :
-    (marksOf "expire" "key" = false ∧ marksOf "pexpire" "key" = false) →
-    Safe Q.code State.init hExpire = true ∧
-    (run Q.code State.init (hExpire.take 3)).entry 0 kWk ≠ (run Q.code State.init (hExpire.take 2)).entry 0 kWk ∧
-    execAfter Q.code hExpire 1010 = .array 0 ∧ judged Q.code hExpire 1010 = [(.array 0, .mustNil)] ∧
-    execAfter Q.code hPexpire 1010 = .array 0 := by decide
+    Safe Q.fixed State.init hExpireOld = true ∧
+    (run Q.fixed State.init (hExpireOld.take 3)).entry 0 kWk ≠ (run Q.fixed State.init (hExpireOld.take 2)).entry 0 kWk ∧
+    execAfter Q.fixed hExpireOld 1010 = .array 0 ∧ execAfter Q.code hExpireOld 1010 = .array 0 ∧
+    judged Q.fixed hExpireOld 1010 = [(.array 0, .mustNil)] := by decide
 
-/-- PERSIST of the watched key's deadline -/
+/-- old row of `persist` (before 96ab82d) -/
 theorem watch_sound_fails_persist :
-    marksOf "persist" "key" = false →
-    Safe Q.code State.init hPersist = true ∧
-    (run Q.code State.init (hPersist.take 3)).entry 0 kWk ≠ (run Q.code State.init (hPersist.take 2)).entry 0 kWk ∧
-    execAfter Q.code hPersist 1010 = .array 0 ∧ judged Q.code hPersist 1010 = [(.array 0, .mustNil)] := by decide
+    Safe Q.fixed State.init hPersistOld = true ∧
+    (run Q.fixed State.init (hPersistOld.take 3)).entry 0 kWk ≠ (run Q.fixed State.init (hPersistOld.take 2)).entry 0 kWk ∧
+    execAfter Q.fixed hPersistOld 1010 = .array 0 ∧ judged Q.fixed hPersistOld 1010 = [(.array 0, .mustNil)] := by decide
 
-/-- RENAME away from the watched key (renaming TO it does abort) -/
+/-- old row of `rename` (before 414e6c4: the source key parameter is not marked) -/
 theorem watch_sound_fails_rename_source :
-    marksOf "rename" "old_key" = false →
-    Safe Q.code State.init hRenameSrc = true ∧
-    (run Q.code State.init (hRenameSrc.take 3)).entry 0 kWk ≠ (run Q.code State.init (hRenameSrc.take 2)).entry 0 kWk ∧
-    execAfter Q.code hRenameSrc 1010 = .array 0 ∧ judged Q.code hRenameSrc 1010 = [(.array 0, .mustNil)] ∧
-    execAfter Q.code hRenameDst 1010 = .nil := by decide
+    Safe Q.fixed State.init hRenameSrcOld = true ∧
+    (run Q.fixed State.init (hRenameSrcOld.take 3)).entry 0 kWk ≠ (run Q.fixed State.init (hRenameSrcOld.take 2)).entry 0 kWk ∧
+    execAfter Q.fixed hRenameSrcOld 1010 = .array 0 ∧ judged Q.fixed hRenameSrcOld 1010 = [(.array 0, .mustNil)] := by decide
 
-/-- FLUSHDB / FLUSHALL removing the watched key -/
+/-- old row of `flush_db` (before 2a25c7e: marksAll = false): FLUSHDB / FLUSHALL removing the watched key -/
 theorem watch_sound_fails_flush :
-    flushMarks = false →
-    Safe Q.code State.init hFlush = true ∧
-    (run Q.code State.init (hFlush.take 3)).entry 0 kWk ≠ (run Q.code State.init (hFlush.take 2)).entry 0 kWk ∧
-    execAfter Q.code hFlush 1010 = .array 0 ∧ judged Q.code hFlush 1010 = [(.array 0, .mustNil)] ∧
-    execAfter Q.code hFlushAll 1010 = .array 0 := by decide
+    Safe Q.fixed State.init hFlushOld = true ∧
+    (run Q.fixed State.init (hFlushOld.take 3)).entry 0 kWk ≠ (run Q.fixed State.init (hFlushOld.take 2)).entry 0 kWk ∧
+    execAfter Q.fixed hFlushOld 1010 = .array 0 ∧ judged Q.fixed hFlushOld 1010 = [(.array 0, .mustNil)] ∧
+    execAfter Q.fixed hFlushAllOld 1010 = .array 0 := by decide
 
-/-- a second WATCH of the same key replaces the baseline: the change made before it is forgotten (the
-    prescribed variant aborts) -/
+/-- old switch `rewatchKeeps = false` (before 180a098): a second WATCH of the same key replaces the baseline, the
+    change made before it is forgotten; with the switch on EXEC aborts -/
 theorem watch_sound_fails_rewatch :
     execAfter Q.code hRewatch 1010 = .array 0 ∧ judged Q.code hRewatch 1010 = [(.array 0, .mustNil)] ∧
-    execAfter Q.fixed hRewatch 1010 = .nil := by decide
+    execAfter ⟨true, false, false⟩ hRewatch 1010 = .array 0 ∧ execAfter Q.noPurge hRewatch 1010 = .nil := by decide
 
-/-- EXEC checks the watched key in the database selected at EXEC time: WATCH k; SELECT 1; k changes in db 0;
-    EXEC executes (the history is not `Safe Q.code`; the prescribed variant aborts) -/
+/-- old switch `perDb = false` (before 3ed7039): EXEC checks the watched key in the database selected at EXEC
+    time — WATCH k; SELECT 1; k changes in db 0; EXEC executes (the history is not `Safe Q.code`) -/
 theorem watch_sound_fails_select_exec :
-    Safe Q.code State.init hSelectExec = false ∧ Safe Q.fixed State.init hSelectExec = true ∧
+    Safe Q.code State.init hSelectExec = false ∧ Safe Q.noPurge State.init hSelectExec = true ∧
     execAfter Q.code hSelectExec 1010 = .array 0 ∧ judged Q.code hSelectExec 1010 = [(.array 0, .mustNil)] ∧
-    execAfter Q.fixed hSelectExec 1010 = .nil := by decide
+    execAfter Q.noPurge hSelectExec 1010 = .nil := by decide
 
 /-- ... and aborts for a change of the other database's key of that name: a false abort -/
 theorem no_false_abort_fails_select :
     execAfter Q.code hSelectFalseAbort 1010 = .nil ∧ judged Q.code hSelectFalseAbort 1010 = [(.nil, .mustRun)] ∧
-    execAfter Q.fixed hSelectFalseAbort 1010 = .array 0 := by decide
+    execAfter Q.noPurge hSelectFalseAbort 1010 = .array 0 := by decide
 
-/-- UNWATCH unregisters in the database selected at UNWATCH time: it takes another client's registration
-    away (watcher count 1 → 0), `mark_modified` becomes a no-op and that client's EXEC misses the change -/
+/-- old switch `perDb = false`: UNWATCH unregisters in the database selected at UNWATCH time — it takes another
+    client's registration away (watcher count 1 → 0), `mark_modified` becomes a no-op and that client's EXEC
+    misses the change -/
 theorem watch_sound_fails_unwatch_steals :
     (run Q.code State.init (hUnwatchSteals.take 5)).active 1 (shardOf kWk) = 0 ∧
     execAfter Q.code hUnwatchSteals 1010 = .array 0 ∧ judged Q.code hUnwatchSteals 1010 = [(.array 0, .mustNil)] ∧
-    execAfter Q.fixed hUnwatchSteals 1010 = .nil := by decide
+    execAfter Q.noPurge hUnwatchSteals 1010 = .nil := by decide
 
 /-- ... on a zero count it wraps to usize::MAX, and the next registration wraps it back to 0 -/
 theorem watch_sound_fails_unwatch_wraps :
     (run Q.code State.init (hUnwatchWraps.take 3)).active 1 (shardOf kWk) = 18446744073709551615 ∧
     (run Q.code State.init (hUnwatchWraps.take 5)).active 1 (shardOf kWk) = 0 ∧
     execAfter Q.code hUnwatchWraps 1010 = .array 0 ∧ judged Q.code hUnwatchWraps 1010 = [(.array 0, .mustNil)] ∧
-    execAfter Q.fixed hUnwatchWraps 1010 = .nil := by decide
+    execAfter Q.noPurge hUnwatchWraps 1010 = .nil := by decide
 
-/-- WATCH of a key that is stored but already past its deadline: nothing happens afterwards, EXEC returns nil
-    (both variants: no repair proposed) although the key was logically absent at WATCH and still is -/
+/-- STILL OPEN on the current tree (`watchPurges = false`): WATCH of a key that is stored but already past its
+    deadline — nothing happens afterwards, EXEC returns nil although the key was logically absent at WATCH and
+    still is.  With the purge at WATCH time (`Q.fixed`, proposed fix C08_7) EXEC executes. -/
 theorem no_false_abort_fails_expired_at_watch :
-    execAfter Q.code hExpiredAtWatch 1110 = .nil ∧ judged Q.code hExpiredAtWatch 1110 = [(.nil, .mustRun)] ∧
-    execAfter Q.fixed hExpiredAtWatch 1110 = .nil := by decide
+    execAfter Q.noPurge hExpiredAtWatch 1110 = .nil ∧ judged Q.noPurge hExpiredAtWatch 1110 = [(.nil, .mustRun)] ∧
+    execAfter Q.code hExpiredAtWatch 1110 = .nil ∧
+    execAfter Q.fixed hExpiredAtWatch 1110 = .array 0 ∧ judged Q.fixed hExpiredAtWatch 1110 = [(.array 0, .mustRun)] := by decide
 
 /-- the deadline passing between WATCH and EXEC aborts (lazy path), before it does not -/
 theorem expiry_aborts :
-    execAfter Q.code hExpires 1100 = .array 0 ∧ execAfter Q.code hExpires 1151 = .nil ∧
-    judged Q.code hExpires 1151 = [(.nil, .mustNil)] ∧ judged Q.code hExpires 1100 = [(.array 0, .mustRun)] := by decide
+    execAfter Gen.watchQ hExpires 1100 = .array 0 ∧ execAfter Gen.watchQ hExpires 1151 = .nil ∧
+    judged Gen.watchQ hExpires 1151 = [(.nil, .mustNil)] ∧ judged Gen.watchQ hExpires 1100 = [(.array 0, .mustRun)] := by decide
 
 /-! ## Non-vacuity: the hypotheses of the theorems are satisfiable -/
 
-/-- `watch_sound_partial` applied to the SET history (state after `SET wk; WATCH wk`, then the other
-    client's SET, then MULTI): all hypotheses hold and the conclusion is the nil of `set_aborts`. -/
+/-- `watch_sound_tree` applied to the EXPIRE history on the current tree (state after `SET wk; WATCH wk`, then the
+    other client's EXPIRE built from the table, then MULTI): all hypotheses hold, EXEC returns nil. -/
+example : (step Gen.watchQ (run Gen.watchQ (run Gen.watchQ State.init (hExpire.take 2))
+      ([] ++ (1002, .cmd 1 [tableOp "expire" "key" kWk (.put ⟨1, some 600000⟩)]) :: [(1003, .multi 0)])) 1010 (.exec 0 [])).2 = .nil :=
+  watch_sound_tree (run Gen.watchQ State.init (hExpire.take 2)) [] [(1003, .multi 0)] 1002
+    (.cmd 1 [tableOp "expire" "key" kWk (.put ⟨1, some 600000⟩)]) 0 ⟨kWk, 0, 0⟩ 1010 []
+    (reachable_inv Gen.watchQ (hExpire.take 2) (by decide)) (by decide) (by decide) (by decide) (by decide) (by decide) (by decide)
+
+/-- `watch_sound_partial` applied to the SET history with the old switches -/
 example : (step Q.code (run Q.code (run Q.code State.init (hSet.take 2)) ([] ++ (1002, .cmd 1 [setOp kWk 2]) :: [(1003, .multi 0)]))
     1010 (.exec 0 [])).2 = .nil :=
   watch_sound_partial (run Q.code State.init (hSet.take 2)) [] [(1003, .multi 0)] 1002 (.cmd 1 [setOp kWk 2]) 0
@@ -354,17 +457,17 @@ example : (step Q.code (run Q.code (run Q.code State.init (hSet.take 2)) ([] ++ 
     (reachable_inv Q.code (hSet.take 2) (by decide)) (by decide) (by decide) (by decide) (by decide) rfl (by decide)
     (by decide) (by decide)
 
-/-- `watch_sound` (full statement) applied to the same history in the prescribed variant -/
-example : (step Q.fixed (run Q.fixed (run Q.fixed State.init (hSet.take 2)) ([] ++ (1002, .cmd 1 [setOp kWk 2]) :: [(1003, .multi 0)]))
-    1010 (.exec 0 [])).2 = .nil :=
-  watch_sound Q.fixed (run Q.fixed State.init (hSet.take 2)) [] [(1003, .multi 0)] 1002 (.cmd 1 [setOp kWk 2]) 0
-    ⟨kWk, 0, 0⟩ 1010 []
-    (reachable_inv Q.fixed (hSet.take 2) (by decide)) (by decide) (by decide) (by decide) (by decide) (by decide) (by decide)
+/-- `watch_sound` with the sweeper's deletion as the changing step, prescribed variant -/
+example : (step Q.fixed (run Q.fixed (run Q.fixed State.init (hExpires.take 2)) ([] ++ (1200, .sweep 0 kWk true) :: [(1201, .multi 0)]))
+    1210 (.exec 0 [])).2 = .nil :=
+  watch_sound Q.fixed (run Q.fixed State.init (hExpires.take 2)) [] [(1201, .multi 0)] 1200 (.sweep 0 kWk true) 0
+    ⟨kWk, 0, 0⟩ 1210 []
+    (reachable_inv Q.fixed (hExpires.take 2) (by decide)) (by decide) (by decide) (by decide) (by decide) (by decide) (by decide)
 
 /-- `no_false_abort_after_watch`: WATCH wk, another client writes another key, MULTI, EXEC -/
-example : (step Q.code (run Q.code (run Q.code State.init [(1000, .cmd 1 [setOp kWk 1])])
+example : (step Gen.watchQ (run Gen.watchQ (run Gen.watchQ State.init [(1000, .cmd 1 [setOp kWk 1])])
       ((1001, .watch 0 [kWk]) :: [(1002, .cmd 1 [setOp kOther 2]), (1003, .multi 0)])) 1010 (.exec 0 [])).2 ≠ .nil :=
-  no_false_abort_after_watch Q.code _ 1001 [(1002, .cmd 1 [setOp kOther 2]), (1003, .multi 0)] 0 1010 kWk []
+  no_false_abort_after_watch Gen.watchQ _ 1001 [(1002, .cmd 1 [setOp kOther 2]), (1003, .multi 0)] 0 1010 kWk []
     (by decide) (by decide) (by decide) (by decide) (by decide)
 
 end Ferrous.C08
